@@ -265,6 +265,8 @@ class FakeSocket(socket.socket):
         if self.closed:
             raise OSError(errno.EBADF, "closed")
         if self._kind == socket.SOCK_DGRAM:
+            if self.peer is None:
+                raise OSError(errno.EDESTADDRREQ, "Destination address required")
             return self.sendto(data, self.peer)
         if not self.connected:
             raise OSError(errno.ENOTCONN, "not connected")
@@ -600,3 +602,324 @@ def run_async(coro_fn, net=None):
         finally:
             asyncio.set_event_loop(None)
             loop.close()
+
+
+# ---------------------------------------------------------------------------
+# trio world: the real dns._trio_backend and the real trio.SocketStream / cancel scopes run on a
+# trio.abc.Clock that reads the virtual clock and jumps it to the next deadline when every task is
+# blocked; sockets are trio.socket.SocketType subclasses driven by the same scripts.
+
+try:  # trio is an optional dependency of dnspython; present in /venv
+    import trio as _trio
+    import trio.socket as _trio_socket
+except Exception:  # noqa: BLE001  pragma: no cover
+    _trio = None
+
+_INF = float("inf")
+TRIO_STATS = {"runs": 0, "jumps": 0}  # how often the trio world really ran / jumped its clock (read by the checks as probes)
+
+
+def have_trio():
+    return _trio is not None
+
+
+if _trio is not None:
+
+    class _SimTrioClock(_trio.abc.Clock):
+        def __init__(self):
+            self.scope = None
+            self.deadlocked = False
+            self.jumps = 0
+
+        def start_clock(self):
+            pass
+
+        def current_time(self):
+            return VT.now
+
+        def deadline_to_sleep_time(self, deadline):
+            # only called when no task is runnable: simulated time jumps to the next deadline
+            if deadline == _INF:
+                # nothing can ever happen again: abort the run instead of sleeping in epoll for ever
+                if self.scope is not None and not self.deadlocked:
+                    self.deadlocked = True
+                    self.scope.cancel()
+                return 0
+            if deadline > VT.now:
+                VT.now = deadline
+                self.jumps += 1
+            return 0
+
+    class TrioFakeSocket(_trio_socket.SocketType):
+        def __init__(self, family, kind, proto=0, net=None):
+            super().__init__()
+            self._family = family
+            self._kind = kind
+            self.net = net or NET
+            self.arrivals = []  # (time, seq, item) in arrival order
+            self.seq = 0
+            self.inq = []
+            self.rbuf = bytearray()
+            self.eof = False
+            self.reset = False
+            self.closed = False
+            self.bound = None
+            self.peer = None
+            self.script = None
+            self.connected = False
+            self.tx_i = 0
+            self.rx_i = 0
+            self.rx_started = False
+            self.recv_calls = 0
+            self.net.sockets.append(self)
+
+        family = property(lambda self: self._family)
+        type = property(lambda self: self._kind)
+        proto = property(lambda self: 0)
+        did_shutdown_SHUT_WR = property(lambda self: False)
+
+        def shutdown(self, how):
+            pass
+
+        def is_readable(self):
+            self._drain()
+            return bool(self.inq or self.rbuf or self.eof or self.reset)
+
+        async def wait_writable(self):
+            await _trio.lowlevel.checkpoint()
+
+        def __repr__(self):
+            return f"<TrioFakeSocket {self._kind!r}>"
+
+        def fileno(self):
+            return -1 if self.closed else 1000
+
+        def close(self):
+            self.closed = True
+            if isinstance(self.script, TcpScript):
+                self.script.client_closed = True
+
+        def __enter__(self):
+            return self
+
+        def __exit__(self, *a):
+            self.close()
+            return False
+
+        def setsockopt(self, *a, **kw):
+            pass
+
+        def getsockopt(self, *a, **kw):
+            return 0
+
+        def getsockname(self):
+            return self.bound or (("0.0.0.0" if self._family == socket.AF_INET else "::"), 40000)
+
+        def getpeername(self):
+            if not self.connected:
+                raise OSError(errno.ENOTCONN, "not connected")
+            return self.peer
+
+        async def bind(self, addr):
+            await _trio.lowlevel.checkpoint()
+            self.bound = addr
+
+        # ---- waiting ----
+        def _push(self, when, item):
+            self.seq += 1
+            self.arrivals.append((when, self.seq, item))
+            self.arrivals.sort(key=lambda a: (a[0], a[1]))
+
+        def _drain(self):
+            while self.arrivals and self.arrivals[0][0] <= VT.now:
+                _, _, item = self.arrivals.pop(0)
+                if self._kind == socket.SOCK_DGRAM:
+                    self.inq.append(item)
+                elif item == "EOF":
+                    self.eof = True
+                elif item == "RESET":
+                    self.reset = True
+                else:
+                    self.rbuf += item
+
+        async def _wait_next(self):
+            if self.arrivals:
+                await _trio.sleep_until(self.arrivals[0][0])
+            else:
+                if _trio.current_effective_deadline() == _INF:
+                    raise SimDeadlock("trio socket waits without a deadline and nothing will arrive")
+                await _trio.sleep_forever()
+
+        # ---- datagram ----
+        async def sendto(self, data, dest):
+            await _trio.lowlevel.checkpoint_if_cancelled()
+            if self.closed:
+                raise OSError(errno.EBADF, "closed")
+            script = self.net.udp_for(dest)
+            if script is None:
+                raise HarnessError(f"no UDP script for {dest}")
+            self.script = script
+            script.sent.append((VT.now, bytes(data), dest))
+            t0 = VT.now
+            for delay, payload, source in script.deliveries:
+                self._push(t0 + delay, (payload, source))
+            await _trio.lowlevel.cancel_shielded_checkpoint()
+            return len(data)
+
+        async def recvfrom(self, n):
+            await _trio.lowlevel.checkpoint_if_cancelled()
+            while True:
+                if self.closed:
+                    raise OSError(errno.EBADF, "closed")
+                self._drain()
+                if self.inq:
+                    payload, source = self.inq.pop(0)
+                    await _trio.lowlevel.cancel_shielded_checkpoint()
+                    if isinstance(payload, BaseException):
+                        raise payload
+                    return (payload[:n], source)
+                await self._wait_next()
+
+        # ---- stream ----
+        async def connect(self, dest):
+            await _trio.lowlevel.checkpoint_if_cancelled()
+            if self._kind == socket.SOCK_DGRAM:
+                self.peer = dest
+                self.connected = True
+                await _trio.lowlevel.cancel_shielded_checkpoint()
+                return
+            script = self.net.tcp_for(dest)
+            if script is None:
+                raise HarnessError(f"no TCP script for {dest}")
+            self.script = script
+            self.peer = dest
+            kind = script.connect[0]
+            if kind == "hang":
+                if _trio.current_effective_deadline() == _INF:
+                    raise SimDeadlock("trio connect hangs without a deadline")
+                await _trio.sleep_forever()
+            delay = script.connect[1]
+            if delay > 0:
+                await _trio.sleep(delay)
+            else:
+                await _trio.lowlevel.cancel_shielded_checkpoint()
+            if kind == "refused":
+                raise ConnectionRefusedError(errno.ECONNREFUSED, "Connection refused")
+            self.connected = True
+            if not script.rx_after_request:
+                self._schedule_rx()
+
+        def attach(self, script, peer=("10.0.0.1", 53)):
+            self.script = script
+            self.peer = peer
+            self.connected = True
+            if not script.rx_after_request:
+                self._schedule_rx()
+
+        def _schedule_rx(self):
+            if self.rx_started:
+                return
+            self.rx_started = True
+            t0 = VT.now
+            for delay, chunk in self.script.rx:
+                self._push(t0 + delay, chunk if isinstance(chunk, str) else bytes(chunk))
+
+        async def send(self, data):
+            await _trio.lowlevel.checkpoint_if_cancelled()
+            if self._kind == socket.SOCK_DGRAM:
+                if self.peer is None:
+                    raise OSError(errno.EDESTADDRREQ, "Destination address required")
+                return await self.sendto(data, self.peer)
+            while True:
+                if self.closed:
+                    raise OSError(errno.EBADF, "closed")
+                if not self.connected:
+                    raise OSError(errno.ENOTCONN, "not connected")
+                s = self.script
+                if self.tx_i < len(s.tx_accept):
+                    k = s.tx_accept[self.tx_i]
+                    self.tx_i += 1
+                    if k == 0:
+                        await _trio.sleep(s.tx_gap)  # kernel buffer full: writable again after the gap
+                        continue
+                    k = min(k, len(data))
+                else:
+                    k = len(data)
+                first = len(s.received) == 0
+                s.received += bytes(data[:k])
+                if s.rx_after_request and first:
+                    self._schedule_rx()
+                await _trio.lowlevel.cancel_shielded_checkpoint()
+                return k
+
+        async def recv(self, n):
+            await _trio.lowlevel.checkpoint_if_cancelled()
+            while True:
+                if self.closed:
+                    raise OSError(errno.EBADF, "closed")
+                self.recv_calls += 1
+                self._drain()
+                if self.rbuf:
+                    s = self.script
+                    cap = n
+                    if s is not None and self.rx_i < len(s.max_recv):
+                        cap = max(1, min(n, s.max_recv[self.rx_i]))
+                        self.rx_i += 1
+                    out = bytes(self.rbuf[:cap])
+                    del self.rbuf[:cap]
+                    await _trio.lowlevel.cancel_shielded_checkpoint()
+                    return out
+                if self.reset:
+                    raise ConnectionResetError(errno.ECONNRESET, "reset")
+                if self.eof:
+                    await _trio.lowlevel.cancel_shielded_checkpoint()
+                    return b""
+                await self._wait_next()
+
+    class _Passthrough:
+        def __init__(self, real, **over):
+            self.__dict__["_real"] = real
+            self.__dict__.update(over)
+
+        def __getattr__(self, name):
+            return getattr(self.__dict__["_real"], name)
+
+    def trio_socket_factory(af, kind, proto=0):
+        return TrioFakeSocket(af, kind, proto)
+
+    def install_trio_seam():
+        """Rebind the name `trio` inside dns._trio_backend: everything is the real trio except
+        trio.socket.socket, which hands out simulated sockets."""
+        import dns._trio_backend as tb
+
+        if not isinstance(tb.trio, _Passthrough):
+            tb.trio = _Passthrough(_trio, socket=_Passthrough(_trio_socket, socket=trio_socket_factory))
+        return tb
+
+    def run_trio(coro_fn, net=None):
+        """Run coro_fn() under trio on simulated time; returns (result, exception)."""
+        clock = _SimTrioClock()
+        box = {}
+
+        async def main():
+            with _trio.CancelScope() as scope:
+                clock.scope = scope
+                box["r"] = await coro_fn()
+                return
+            # only reached when the clock cancelled the scope: every task was blocked for ever
+
+        TRIO_STATS["runs"] += 1
+        try:
+            try:
+                _trio.run(main, clock=clock)
+            finally:
+                TRIO_STATS["jumps"] += clock.jumps
+        except SimDeadlock as e:
+            return None, e
+        except BaseException as e:  # noqa: BLE001
+            if isinstance(e, (KeyboardInterrupt, SystemExit)):
+                raise
+            return None, e
+        if clock.deadlocked and "r" not in box:
+            return None, SimDeadlock("trio run idle forever")
+        return box.get("r"), None
